@@ -156,4 +156,33 @@ def check(ctx):
     # concurrently break the protocol although each of them follows it (shared with C20)
     from .common import share
     share(ctx, 'C20', 'R2/C20.', ['R4.rank_dependent_effect'])
+    # no other member function of the callback (constructor, setters) may open the final file for
+    # writing: a probe like `std::ofstream(filename_)` truncates the checkpoint of the previous job
+    nother = 0
+    for rec in set(f.record for f in cbs if f.record is not None):
+        for m in rec.methods:
+            if m.body is None or m.is_pattern or m.name == 'operator()':
+                continue
+            nother += 1
+
+            def r3(m=m):
+                s, ex = summarise(p, m, opaque=CB_OPAQUE)
+                final = fld(TH, 'filename_')
+                names = [sym(q.name) for q in m.params if 'basic_string' in (q.type or '') or 'string' in (q.type or '')]
+                ops = [e for e, l in flat_effects(s.effects) if (e['kind'] == 'open' and 'ofstream' in (e.get('type') or ''))
+                       or (e['kind'] == 'open' and 'fstream' in (e.get('type') or '') and 'ifstream' not in (e.get('type') or ''))
+                       or (e['kind'] == 'streamop' and e['name'] == 'open')]
+                bad = [e for e in ops if (e.get('path') if e['kind'] == 'open' else (e.get('args') or [None])[0]) in [final] + names
+                       or fld(s.this, 'filename_') == (e.get('path') if e['kind'] == 'open' else (e.get('args') or [None])[0])]
+                if bad:
+                    ctx.violation('R3.no_other_writer', '%s:callback::%s' % (bad[0]['where'], m.name), 'the checkpoint file '
+                                  'itself is opened for writing in %s: an existing checkpoint is truncated before the '
+                                  'first new checkpoint has been written' % m.name,
+                                  {'crash_point': 'kill after this call and before the first rename() of the job'})
+                elif ops:
+                    raise AnalysisBroken('%s opens a file for writing: %s' % (m.name, T.pretty(ops[0].get('path') or ('?',))[:80]))
+                else:
+                    ctx.holds('R3.no_other_writer', fsite(m), 'opens no file for writing')
+            ctx.guard('R3', fsite(m), r3)
+    ctx.count('other member functions of the callback', nother, 2)
 
